@@ -574,6 +574,65 @@ def t_list(rng, gid, shared=None):
     targets = []
     r = rng.random()
     depth = 1
+    if maybe(rng, 0.2):
+        # "whatever the constructor accepts": a grouping, a subgrader layout and answer lists
+        # composed at random. The constructor may refuse the combination (then the tenant simply
+        # cannot be built); if it accepts it, every call must still end in a result or a library error.
+        ngroups = pick(rng, [1, 2, 2, 3, 3, 3])
+        single = maybe(rng, 0.5)
+        same = rng.randint(1, 3)
+        sizes = [same if (single and maybe(rng, 0.9)) else rng.randint(1, 3) for _ in range(ngroups)]
+        grouping = []
+        for gnum in range(1, ngroups + 1):
+            grouping += [gnum] * sizes[gnum - 1]
+        rng.shuffle(grouping)
+        inner = {'__grader__': {'cls': 'ListGrader', 'cfg': {
+            'subgraders': {'__grader__': {'cls': 'StringGrader', 'cfg': {}}}, 'ordered': maybe(rng, 0.5)}}}
+        plain = {'__grader__': {'cls': 'StringGrader', 'cfg': {}}}
+        if single:
+            cfg['subgraders'] = inner if maybe(rng, 0.9) else plain
+            cfg['ordered'] = maybe(rng, 0.5)
+            kinds = [cfg['subgraders'] is inner] * 5
+            nans = max(1, ngroups + pick(rng, [0, 0, 1, -1, -1]))
+        else:
+            kinds = [(sizes[k % ngroups] > 1) != maybe(rng, 0.1)
+                     for k in range(max(1, ngroups + pick(rng, [0, 0, 0, 0, 0, 1, -1])))]
+            cfg['subgraders'] = [inner if k else plain for k in kinds]
+            cfg['ordered'] = True
+            nans = max(1, len(kinds) + pick(rng, [0, 0, 0, 0, 0, 0, 1, -1]))
+        cfg['grouping'] = grouping
+        cfg['answers'] = []
+        for k in range(nans):
+            size = sizes[k % ngroups]
+            isinner = kinds[k % len(kinds)]
+            if isinner and size == 1 and maybe(rng, 0.85):
+                # a one-box group handed to a ListGrader: the box's text is what the inner grader
+                # receives where it expects a list
+                cfg['answers'].append(pick(rng, [['a', 'b'], ['a', 'b', 'c']]))
+            elif maybe(rng, 0.9):
+                cfg['answers'].append(['a', 'b', 'c'][:size] if isinner else 'z')
+            else:
+                cfg['answers'].append(pick(rng, [['a', 'b'], ['a', 'b', 'c'], 'z']))
+        if len(cfg['answers']) == 1:
+            cfg['answers'] = cfg['answers'] + cfg['answers']
+        n = len(grouping)
+        letters = ['a', 'b', 'z', '', 'ab', 'ab', 'ba', 'abc', 'abc']
+        # the submission that follows the configured answers as closely as the layout allows
+        follow, seen = [], {}
+        for gnum in grouping:
+            ans = cfg['answers'][gnum - 1] if gnum - 1 < len(cfg['answers']) else 'z'
+            pos = seen.get(gnum, 0)
+            seen[gnum] = pos + 1
+            if isinstance(ans, list):
+                follow.append('abc'[:len(ans)] if sizes[gnum - 1] == 1 else ans[pos % len(ans)])
+            else:
+                follow.append(ans)
+        pal = {'right': [follow] + [[pick(rng, letters) for _ in range(n)] for _ in range(2)],
+               'wrong': [[pick(rng, letters) for _ in range(n)] for _ in range(3)],
+               'malformed': [[pick(rng, letters) for _ in range(max(1, n - 1))], ['a'] * (n + 1)]}
+        return {'bp': {'id': gid, 'cls': 'ListGrader', 'cfg': cfg}, 'configured': True, 'kind': 'list', 'n': n,
+                'pal': pal, 'expects': {'valid': [], 'invalid': []}, 'targets': [], 'depth': 2,
+                'debug': bool(cfg.get('debug'))}
     if r < 0.12:
         # answers that refer to sibling inputs (documented feature of ordered formula lists):
         # each sibling input becomes a dependent variable sampled alongside the author's
